@@ -352,7 +352,8 @@ package client
 //@   chanState(c).Version < 18446744073709551615 && allocFor(mach(c), chanState(c)) && len(mach(c).params.Parts) == 2 &&
 //@   c.subChannelFundings != nil && c.subChannelWithdrawals != nil && c.machine.pr != nil && c.statesPub != nil &&
 //@   (c.parent != nil ==> chanWF(c.parent) && c.parent.subChannelWithdrawals != nil && c.parent.subChannelFundings != nil) &&
-//@   mach(c).params.Nonce != nil && txCloneable(mach(c).stagingTX) && txCloneable(mach(c).currentTX)
+//@   mach(c).params.Nonce != nil && txCloneable(mach(c).stagingTX) && txCloneable(mach(c).currentTX) &&
+//@   (mach(c).phase == channel.Acting ==> mach(c).stagingTX.State == nil)
 
 // peerSigOK: the signature verifies for the state against every address of participant idx.
 //@ pred peerSigOK(m *channel.machine, idx channel.Index, s *channel.State, sig wallet.Sig) =
@@ -424,6 +425,8 @@ package client
 //@           ((sameTX(mach(c).currentTX, old(mach(c).currentTX)) && (mach(c).phase == old(mach(c).phase) || (old(mach(c).phase) == channel.Signing && mach(c).phase == channel.Acting))) ||
 //@            (mach(c).currentTX.State == old(reqState(req)) && mach(c).stagingTX.State == nil && (mach(c).phase == channel.Acting || mach(c).phase == channel.Final)) ||
 //@            (sameTX(mach(c).currentTX, old(mach(c).currentTX)) && mach(c).phase == channel.Signing && mach(c).stagingTX.State == old(reqState(req))))
+//@   ensures !persistMayFail() && old(curSigned(c)) && err != nil ==> sameTX(mach(c).currentTX, old(mach(c).currentTX)) &&
+//@           (mach(c).phase == old(mach(c).phase) || (old(mach(c).phase) == channel.Signing && mach(c).phase == channel.Acting)) && (old(mach(c).phase) == channel.Acting ==> mach(c).stagingTX.State == nil)
 //@   callsite (*machine).Sig : m == old(mach(c)) && m.stagingTX.State == old(reqState(req)) && m.phase == channel.Signing &&
 //@     old(mach(c).phase == channel.Acting && validSuccSM(c.machine.StateMachine, reqState(req), reqActor(req))) &&
 //@     m.stagingTX.Sigs[pidx] == old(reqSig(req)) && peerSigOK(m, pidx, m.stagingTX.State, m.stagingTX.Sigs[pidx])
@@ -542,6 +545,7 @@ package client
 //@           ((sameTX(mach(c).currentTX, old(mach(c).currentTX)) && mach(c).phase == channel.Acting && mach(c).stagingTX.State == nil) ||
 //@            (mach(c).currentTX.State == next && mach(c).stagingTX.State == nil && (mach(c).phase == channel.Acting || mach(c).phase == channel.Final)) ||
 //@            (sameTX(mach(c).currentTX, old(mach(c).currentTX)) && mach(c).phase == channel.Signing && mach(c).stagingTX.State == next))
+//@   ensures !persistMayFail() && err != nil ==> sameTX(mach(c).currentTX, old(mach(c).currentTX)) && mach(c).phase == channel.Acting && mach(c).stagingTX.State == nil
 // (second case: the persister failed after the update was enabled; third case: the persister failed while staging - the function
 // returns before its discard handler is installed and leaves the update staged)
 
